@@ -56,8 +56,9 @@ def mentions_mode(P, f, e, depth=0):
 def run(ctx):
     ctx.clause = ("every decision to restrict the interface to the ksymtab is conjoined with the "
                   "load_in_linux_kernel_mode option (no kernel-mode filtering when the mode is off)")
-    ctx.rules = ["R-KMODE", "R-KSYMAPPLY"]
+    ctx.rules = ["R-KMODE", "R-KSYMAPPLY", "R-KFILTER"]
     P = ctx.program(UNITS)
+    check_kfilter(ctx, P)
     n_sites = n_sel = 0
     for f in sorted(P.all_funcs(), key=lambda x: (x.file, x.l0)):
         if f.dep:
@@ -177,3 +178,62 @@ def check_ksymapply(ctx, P):
                inside or guarded, f.loc(n),
                "inside the loop over %s" % sname if inside else "under a membership test of %s" % sname if guarded else
                "a symbol is flagged as ksymtab-exported without its name having been looked up in the collected markers")
+
+
+
+def check_kfilter(ctx, P):
+    """R-KFILTER: the default filter of a symtab (symtab::make_filter, what the corpus' symbol tables and the exported
+    interface are built with) demands ksymtab membership exactly for kernel binaries, and a filter that demands it
+    rejects a symbol that is not in the ksymtab: interpreted over is_kernel_binary_ and, for symtab_filter::matches with
+    kernel_symbols_ = true, over is_in_ksymtab() x is_public()."""
+    from rules.world import World, ANY, truth
+    from rules import C18
+    mk = C18.fn1(P, "abigail::symtab_reader::symtab::make_filter")
+    mt = C18.fn1(P, "abigail::symtab_reader::symtab_filter::matches")
+    ctx.analysed(mk)
+    ctx.analysed(mt)
+    for kernel in (True, False):
+        def atom(e):
+            if e["k"] == "MemberExpr" and (mk.decl(e) or {}).get("n") == "is_kernel_binary_":
+                return [kernel]
+            return None
+        W = World(mk, atom)
+        seen, _ = W.blocks()
+        reached = {e["i"] for b in seen for e in mk.cfg().blocks[b].elems}
+        calls = [x for x in mk.nodes() if x["k"] == "CXXMemberCallExpr" and (mk.decl(x) or {}).get("n") == "set_kernel_symbols"]
+        if not calls:
+            raise AnalysisBroken("anchor vanished: symtab::make_filter no longer calls set_kernel_symbols")
+        hit = any(c["i"] in reached for c in calls)
+        ctx.ob("R-KFILTER", "make_filter: %s binary -> ksymtab membership %s" % ("kernel" if kernel else "ordinary", "demanded" if kernel else "not demanded"),
+               hit == kernel, mk.loc(calls[0]), "set_kernel_symbols() %s" % ("reached" if hit else "unreachable"))
+    members = {m: v for m, v, cond in C18.filter_calls(P, mk)}
+    km = [m for m in members if "kernel" in m]
+    if not km:
+        raise AnalysisBroken("anchor vanished: the member written by set_kernel_symbols")
+    state = {"public_symbols_": True, km[0]: True}
+    for in_k in (True, False):
+        for pub in (True, False):
+            w = {"is_in_ksymtab": in_k, "is_public": pub}
+
+            def atom2(e):
+                k = e["k"]
+                if k == "CXXMemberCallExpr":
+                    nm = (mt.decl(e) or {}).get("n")
+                    if nm in w:
+                        return [w[nm]]
+                    if nm and nm.startswith("operator bool"):
+                        o = strip_casts(member_call_object(e))
+                        if o is not None and o["k"] == "MemberExpr":
+                            return [state.get((mt.decl(o) or {}).get("n")) is not None]
+                    return [ANY]
+                if k == "CXXOperatorCallExpr" and e.get("op") == "*":
+                    o = strip_casts(call_args(e)[0])
+                    if o is not None and o["k"] == "MemberExpr":
+                        v = state.get((mt.decl(o) or {}).get("n"))
+                        return [ANY if v is None else v]
+                return None
+            got = truth(World(mt, atom2).returns())
+            want = in_k and pub
+            ctx.ob("R-KFILTER", "kernel filter: a symbol with is_in_ksymtab=%s, is_public=%s is %s" % (
+                str(in_k).lower(), str(pub).lower(), "kept" if want else "rejected"), got == frozenset([want]), mt.loc(),
+                "decided" if got == frozenset([want]) else "symtab_filter::matches answers %s" % sorted(got))
